@@ -177,7 +177,7 @@ def rule_provenance(ctx):
     st = cs.stores(attr="_salted_password")
     ok = len(st) == 1 and isinstance(st[0].stmt.value, ast.Call) and unparse(st[0].stmt.value.func) == "hashlib.pbkdf2_hmac" and \
         [unparse(a) for a in st[0].stmt.value.args] == ["self._hashname", "self._sasl_plain_password", fs.params()[1], fs.params()[2]] and \
-        cs.exit not in cs.reachable([cs.entry], avoid=set(st), exc=False) and not any(t.kind == "test" for t in cs.nodes)
+        cs.exit not in cs.reachable([cs.entry], avoid=set(st), exc=False) and not any(t.kind == "test" and not isinstance(t.ast, ast.Constant) for t in cs.nodes)
     ctx.ob(R, fs, fs.node, ok, "SaltedPassword is not PBKDF2(hash, password, salt, iterations) recomputed on every call (e.g. cached under a key "
                                "that omits a parameter)", text="pbkdf2")
     for f, cc, s in _stores(ctx, "_salted_password"):
